@@ -361,7 +361,7 @@ func c06FieldAlternatives(kind string) []kv {
 func c06RewriteSub() *engine.Sub {
 	return &engine.Sub{
 		Name:  "structured-rewrites",
-		Rule:  "envelopes rebuilt with the harness' own assembler: every payload field replaced by every alternative value or dropped while keeping the old signature; the same SigPayload signed by another key of the same and of every other algorithm; signed by the issuer and by another key of its algorithm with the signature in the other encodings of its family (ECDSA: fixed-width r||s, s||r, DER; secp256k1 additionally the 65-byte compact recoverable form with every header byte class; Ed25519/RSA: reversed and doubled); the header replaced by every other algorithm's header, truncated, extended, emptied, both with the old signature and re-signed by the issuer; the signature truncated to every length, emptied, extended; signature and header taken from another valid token of the same issuer. Every decoder must reject, or return the original content with an independently verifiable signature; non-trivial = all",
+		Rule:  "envelopes rebuilt with the harness' own assembler: every payload field replaced by every alternative value or dropped while keeping the old signature; the same SigPayload signed by another key of the same and of every other algorithm; signed by the issuer and by another key of its algorithm with the signature in the other encodings of its family (ECDSA: fixed-width r||s, s||r, DER; secp256k1 additionally the 65-byte compact recoverable form with every header byte class; Ed25519/RSA: reversed and doubled); the header replaced by every other algorithm's header, truncated, extended, emptied, both with the old signature and re-signed by the issuer; the signature truncated to every length, emptied, extended; signature and header taken from another valid token of the same issuer; a forged payload (other audience / command) that embeds the genuine signature followed by the genuine signed bytes in its nonce or metadata, under the genuine signature; an issuer string that names the victim followed by '#', '?', '/' and another key or DID, signed by that other key. Every decoder must reject, or return the original content with an independently verifiable signature; non-trivial = all",
 		Bound: func(t string) string { return "2 kinds x 6 (quick) / 7 (thorough) algorithms" },
 		Gen: func(tier string, emit func(any) bool) {
 			algs := []string{"ed25519", "secp256k1", "p256", "p384", "p521", "rsa2048"}
@@ -391,6 +391,20 @@ func c06RewriteSub() *engine.Sub {
 					for _, f := range altSigFormats(alg) {
 						for _, who := range []string{"other-key", "issuer"} {
 							if !emit(&c06RewriteCase{Kind: kind, Alg: alg, Rw: "signature-in-other-format/" + who, Arg: f}) {
+								return
+							}
+						}
+					}
+					// the genuine signature and the genuine signed bytes embedded in a forged payload (signature wrapping)
+					for _, where := range []string{"nonce-tail", "nonce-head", "meta-bytes", "meta-string"} {
+						if !emit(&c06RewriteCase{Kind: kind, Alg: alg, Rw: "genuine-signed-bytes-embedded", Arg: where}) {
+							return
+						}
+					}
+					// an issuer string that names the victim but carries something else after it, signed by another key
+					for _, deco := range []string{"#other-multibase", "#other-did", "?other-did", "/other-multibase", "#", " ", "%23other-multibase"} {
+						for _, who := range []string{"other-key", "issuer"} {
+							if !emit(&c06RewriteCase{Kind: kind, Alg: alg, Rw: "iss-decorated/" + who, Arg: deco}) {
 								return
 							}
 						}
@@ -486,6 +500,69 @@ func c06RewriteSub() *engine.Sub {
 				sp := sigPayloadNode(p.Header, p.Tag, payload(p.Payload))
 				sig := altFormatSignature(signer, cs.Alg, cs.Arg, mustEncodeCbor(sp))
 				mutated = assembleWithSig(sig, sp)
+			case "genuine-signed-bytes-embedded":
+				genuine := mustEncodeCbor(sigPayloadNode(p.Header, p.Tag, payload(p.Payload)))
+				blob := append(append([]byte{}, p.Sig...), genuine...)
+				other := fixtures.Get("ed25519", 3).DID.String()
+				var es []kv
+				hasMeta := false
+				for _, e := range p.Payload {
+					switch {
+					case e.K == "aud" || (e.K == "sub" && cs.Kind == "inv"):
+						es = append(es, kv{e.K, nStr(other)})
+					case e.K == "cmd":
+						es = append(es, kv{"cmd", nStr("/forged")})
+					case e.K == "nonce" && cs.Arg == "nonce-tail":
+						es = append(es, kv{"nonce", nBytes(append([]byte("0123456789ab"), blob...))})
+					case e.K == "nonce" && cs.Arg == "nonce-head":
+						es = append(es, kv{"nonce", nBytes(append(append([]byte{}, blob...), []byte("0123456789ab")...))})
+					case e.K == "meta" && cs.Arg == "meta-bytes":
+						hasMeta = true
+						es = append(es, kv{"meta", nMap(kv{"z", nBytes(blob)})})
+					case e.K == "meta" && cs.Arg == "meta-string":
+						hasMeta = true
+						es = append(es, kv{"meta", nMap(kv{"z", nStr(string(blob))})})
+					default:
+						es = append(es, e)
+					}
+				}
+				if !hasMeta && cs.Arg == "meta-bytes" {
+					es = append(es, kv{"meta", nMap(kv{"z", nBytes(blob)})})
+				}
+				if !hasMeta && cs.Arg == "meta-string" {
+					es = append(es, kv{"meta", nMap(kv{"z", nStr(string(blob))})})
+				}
+				mutated = assembleWithSig(p.Sig, sigPayloadNode(p.Header, p.Tag, payload(es)))
+			case "iss-decorated/other-key", "iss-decorated/issuer":
+				signer := key
+				otherKey := fixtures.Get(cs.Alg, 0)
+				switch cs.Alg {
+				case "rsa2048":
+					otherKey = fixtures.Get("rsa3072", 0)
+				case "rsa3072":
+					otherKey = fixtures.Get("rsa2048", 0)
+				default:
+					otherKey = fixtures.Get(cs.Alg, 1)
+				}
+				if strings.HasSuffix(cs.Rw, "/other-key") {
+					signer = otherKey
+				}
+				odid := otherKey.DID.String()
+				deco := strings.NewReplacer("other-multibase", strings.TrimPrefix(odid, "did:key:"), "other-did", odid).Replace(cs.Arg)
+				var es []kv
+				for _, e := range p.Payload {
+					if e.K == "iss" {
+						v, _ := e.V.AsString()
+						es = append(es, kv{"iss", nStr(v + deco)})
+					} else {
+						es = append(es, e)
+					}
+				}
+				hdr := p.Header
+				if signer != key {
+					hdr = headerFor(signer.Alg)
+				}
+				mutated = assemble(signer, sigPayloadNode(hdr, p.Tag, payload(es)))
 			case "header-replaced-old-sig", "header-replaced-resigned":
 				var h []byte
 				switch cs.Arg {
@@ -548,7 +625,7 @@ func c06RewriteSub() *engine.Sub {
 			ctx.States(1)
 			ctx.Nontrivial(1)
 			tag := cs.Rw
-			if cs.Rw == "header-replaced-resigned" || cs.Rw == "header-replaced-old-sig" || strings.HasPrefix(cs.Rw, "signature-in-other-format/") {
+			if cs.Rw == "header-replaced-resigned" || cs.Rw == "header-replaced-old-sig" || strings.HasPrefix(cs.Rw, "signature-in-other-format/") || strings.HasPrefix(cs.Rw, "iss-decorated/") || cs.Rw == "genuine-signed-bytes-embedded" {
 				tag += "/" + cs.Arg
 			}
 			c06Check(ctx, art, origView, orig, mutated, func() any { return cs }, tag)
